@@ -1,4 +1,5 @@
 import I18n.Lemmas.LingGenerated
+import I18n.Lemmas.ChkLangGenerated
 import I18n.Props.C19
 /-!
 # C19 — the tie by translation: `lib/ling.py` REGENERATED from the source is the model the theorems of C19 are about
@@ -208,6 +209,20 @@ theorem almost_equal_equivalence_generated (a b c : Language) (ha : EncUpper a) 
     have y' : isAlmostEqual b c = true := by injection y
     rw [h3 x' y']
   · intro e; rw [h4 e]
+
+/-! ## the path-derived part of `Checker.check_language` REGENERATED from `lib/check/__init__.py` (tools/translate/chklang2lean.py) -/
+
+/-- the statements of `check_language` from `language = self.options.language` up to the first `if meta_language:` — the `-l` option, the
+    component before `LC_MESSAGES`, the base name of a `.po` file — as regenerated (calling the regenerated `Language` methods) = the
+    model's `stagePath`: (language, language_source, language_source_quality) or the escaping exception, for ALL option values and paths -/
+theorem generated_path_language_eq_model (opt : Option Language) (path : List Char) :
+    ChkLang.path_language opt path = Gen.ofStage (stagePath opt path) :=
+  Gen.path_language_eq opt path
+
+/-- the `-l` option wins: with an option value the path is not looked at -/
+theorem path_language_option_generated (l : Language) (path : List Char) :
+    ChkLang.path_language (some l) path = .ok (some l, "command-line".toList, 1) := by
+  rw [generated_path_language_eq_model]; rfl
 
 /-! Non-vacuity -/
 
